@@ -177,20 +177,24 @@ def run(ctx: common.Ctx):
   vlin = jax.vmap(vi.linear_interp_with_linear_extrap, (0, None, None))
   A = jnp.asarray
   # one XLA program per (function, shape): much cheaper than op-by-op dispatch
-  j_dot, j_lin = jax.jit(vdot), jax.jit(vlin)
   v_int = jax.vmap(vi.interp, (0, None, None))
-  j_safe = jax.jit(vi._linear_interp_with_safe_extrap, static_argnames='n')
-  j_vint = jax.jit(vi.vertical_interpolation)
-  j_ss = {None: jax.jit(lambda a, v: jnp.searchsorted(a, v, side='right')),
-          'compare_all': jax.jit(lambda a, v: jnp.searchsorted(a, v, side='right', method='compare_all'))}
+
+  # all routines of one case in ONE XLA program per (node count, n): XLA compilation dominates the wall time
+  def _bundle(q, xp_, fp_, n):
+    return dict(dot=vdot(q, xp_, fp_), lin=vlin(q, xp_, fp_),
+                safe=vi._linear_interp_with_safe_extrap(q, xp_, fp_, n=n),
+                vint=vi.vertical_interpolation(q, xp_, fp_), int=v_int(q, xp_, fp_),
+                ss_default=jnp.searchsorted(xp_, q, side='right'),
+                ss_compare_all=jnp.searchsorted(xp_, q, side='right', method='compare_all'))
+  j_bundle = jax.jit(_bundle, static_argnames='n')
 
   # ------------------------------------------------------------------ correspondence: scalar paths
-  ncases = ctx.n(30, 360)
+  ncases = ctx.n(18, 360)
   forced = [(1, 'uniform'), (2, 'uniform'), (2, 'strongly-uneven'), (3, 'sigma'), (12, 'strongly-uneven'),
             (1, 'pressure'), (12, 'pressure'), (3, 'uniform')]
   # every distinct node count costs one XLA compilation per routine: the quick tier draws from the corners
-  # {1, 2, 3, 12} plus four seed-dependent counts, the thorough tier from all of 2..12
-  n_pool = list(range(2, 13)) if not ctx.quick else [2, 3, 12] + [int(v) for v in rng.choice(range(4, 12), 4, replace=False)]
+  # {1, 2, 3, 12} plus two seed-dependent counts, the thorough tier from all of 2..12
+  n_pool = list(range(2, 13)) if not ctx.quick else [2, 3, 12] + [int(v) for v in rng.choice(range(4, 12), 2, replace=False)]
   for ci in range(ncases):
     if ci < len(forced):
       n, kind = forced[ci]
@@ -219,7 +223,8 @@ def run(ctx: common.Ctx):
     base = dict(xp=xp.tolist(), fp=fp.tolist())
     with ctx.impl('corr-exception', base, 'implementation raised in the correspondence run'):
       qall = np.concatenate([xs, xf])
-      eager = ci % 6 == 0      # op-by-op dispatch as well as the jitted programs
+      # op-by-op dispatch as well as the jitted programs (quick: a one-node and a three-node case)
+      eager = (ci % 6 == 0) if not ctx.quick else ci in (0, 3)
       ctx.dist['dispatch=' + ('eager' if eager else 'jit')] += 1
       if eager:
         r_dot, r_lin = vdot(A(qall), A(xp), A(fp)), vlin(A(qall), A(xp), A(fp))
@@ -227,12 +232,11 @@ def run(ctx: common.Ctx):
         r_vint = vi.vertical_interpolation(A(qall), xp, A(fp))
         r_ss = {m: jnp.searchsorted(A(xp), A(qall), side='right', **({} if m is None else dict(method=m)))
                 for m in (None, 'compare_all')}
+        r_int = v_int(A(qall), A(xp), A(fp))     # scalar queries under vmap, as the repository calls it
       else:
-        r_dot, r_lin = j_dot(A(qall), A(xp), A(fp)), j_lin(A(qall), A(xp), A(fp))
-        r_safe = j_safe(A(qall), A(xp), A(fp), n=nsafe)
-        r_vint = j_vint(A(qall), A(xp), A(fp))
-        r_ss = {m: j_ss[m](A(xp), A(qall)) for m in (None, 'compare_all')}
-      r_int = v_int(A(qall), A(xp), A(fp))       # scalar queries under vmap, as the repository calls it
+        rb = j_bundle(A(qall), A(xp), A(fp), n=nsafe)
+        r_dot, r_lin, r_safe, r_vint, r_int = rb['dot'], rb['lin'], rb['safe'], rb['vint'], rb['int']
+        r_ss = {None: rb['ss_default'], 'compare_all': rb['ss_compare_all']}
       res = dict(dot=np.asarray(r_dot), lin=np.asarray(r_lin), safe=np.asarray(r_safe), vint=np.asarray(r_vint),
                  int=np.asarray(r_int), ss={m: np.asarray(v) for m, v in r_ss.items()})
       for sl, tag in ((slice(0, len(xs)), 'near'), (slice(len(xs), None), 'far')):
@@ -251,7 +255,7 @@ def run(ctx: common.Ctx):
 
   tick('corr scalar paths')
   # ------------------------------------------------------------------ correspondence: batched wrapper
-  nb = ctx.n(10, 50)
+  nb = ctx.n(5, 50)
   fns = [('interp', vi.interp, lambda xp_, fp_, xs_: f'interp F interp {xp_} {fp_} {xs_}', 'vec'),
          ('_dot_interp', vi._dot_interp, lambda xp_, fp_, xs_: f'interp F dot {xp_} {fp_} {xs_}', 'vec'),
          ('linear_extrap', vi.linear_interp_with_linear_extrap,
@@ -285,7 +289,7 @@ def run(ctx: common.Ctx):
 
   tick('corr batched')
   # ------------------------------------------------------------------ correspondence: coordinates
-  nc = ctx.n(6, 36)
+  nc = ctx.n(3, 36)
   interp_fns = {'safe': None, 'const': vi.vectorize_vertical_interpolation(vi.interp),
                 'linear': vi.vectorize_vertical_interpolation(vi.linear_interp_with_linear_extrap)}
   for ki in range(nc):
@@ -362,7 +366,7 @@ def run(ctx: common.Ctx):
 
   tick('corr coordinates')
   # semi-Lagrangian vertical interpolation (constant extrapolation), 1-D and 3-D coordinates
-  for si in range(ctx.n(4, 24)):
+  for si in range(ctx.n(2, 24)):
     n = int(rng.choice([1, 2, 3, 6]))
     xp, _ = gen_nodes(rng, n, 'sigma' if n > 1 else 'uniform')
     X, Y = 2, int(rng.choice([1, 3]))
@@ -393,7 +397,7 @@ def run(ctx: common.Ctx):
   def mkgrid(t):
     return sh.Grid(longitude_nodes=t[0], latitude_nodes=t[1], latitude_spacing=t[2], longitude_offset=t[3])
 
-  nh_cases = ctx.n(6, 24)
+  nh_cases = ctx.n(4, 24)
   for hi_ in range(nh_cases):
     ts = grid_table[int(rng.integers(0, len(grid_table)))] if hi_ >= 2 else grid_table[hi_]
     tt = grid_table[int(rng.integers(0, len(grid_table)))] if hi_ >= 2 else grid_table[1 - hi_]
@@ -429,17 +433,17 @@ def run(ctx: common.Ctx):
   tick('corr horizontal')
   # ------------------------------------------------------------------ validation / malformed stream
   def err_kind(f):
+    """(error kind, value): the implementation is called once"""
     try:
-      f()
-      return 'ok'
+      return 'ok', np.asarray(f()).ravel()
     except ValueError:
-      return 'value-error'
+      return 'value-error', None
     except IndexError:
-      return 'index-error'
+      return 'index-error', None
     except TypeError:
-      return 'type-error'
+      return 'type-error', None
 
-  nval = ctx.n(24, 240)
+  nval = ctx.n(15, 240)
   for vi_ in range(nval):
     n = int(rng.choice([0, 1, 2, 3, 5]))
     m = n if vi_ % 3 == 0 else int(rng.choice([0, 1, 2, 3, 4]))
@@ -454,15 +458,14 @@ def run(ctx: common.Ctx):
         ('_dot_interp', lambda: vi._dot_interp(x, A(xp), A(fp)), 'dot'),
         ('linear_interp_with_linear_extrap', lambda: vi.linear_interp_with_linear_extrap(x, A(xp), A(fp)), 'linext'),
         ('_linear_interp_with_safe_extrap', lambda: vi._linear_interp_with_safe_extrap(x, A(xp), A(fp)), 'safe 1')):
-      k = err_kind(call)
+      k, val = err_kind(call)
       ctx.dist[f'malformed:{name}:{k}'] += 1
       if k == 'ok':
-        val = np.asarray(call()).ravel()
         add(f'interp F {op} {fvec(xp)} {fvec(fp)} {fbits(x)}', f'{name}[corner]', inp, val,
             'opt' if op.startswith('safe') else 'vec')
       else:
         add(f'interp F {op} {fvec(xp)} {fvec(fp)} {fbits(x)}', f'{name}[error kind]', inp, k, 'err')
-  for vi_ in range(ctx.n(30, 300)):
+  for vi_ in range(ctx.n(20, 300)):
     n = int(rng.choice([0, 1, 2, 3, 6]))
     c = np.sort(rng.uniform(1, 1000, n))
     mode = ['ok', 'dup', 'swap', 'neg-step', 'ok'][vi_ % 5]
@@ -516,7 +519,10 @@ def run(ctx: common.Ctx):
 
   tick('model run + compare')
   # ------------------------------------------------------------------ probes on the real code
-  nprobe = ctx.n(20, 240)
+  j_probe = jax.jit(lambda q, xp_, fp_, n: (vi.interp(q, xp_, fp_), vdot(q, xp_, fp_), vlin(q, xp_, fp_),
+                                            vi._linear_interp_with_safe_extrap(q, xp_, fp_, n=n)),
+                    static_argnames='n')
+  nprobe = ctx.n(12, 240)
   for pi in range(nprobe):
     n = [2, 2, 3, 12][pi] if pi < 4 else int(rng.choice(n_pool))
     xp, kind = gen_nodes(rng, n)
@@ -531,9 +537,7 @@ def run(ctx: common.Ctx):
     dmin = np.diff(xp).min()
     with ctx.impl('probe-exception', inp):
       xq = np.concatenate([xp, xs])          # the nodes first, then the adversarial queries
-      yi, yd, yl, ys = (np.asarray(v) for v in (
-          vi.interp(A(xq), A(xp), A(fp)), j_dot(A(xq), A(xp), A(fp)), j_lin(A(xq), A(xp), A(fp)),
-          j_safe(A(xq), A(xp), A(fp), n=nsafe)))
+      yi, yd, yl, ys = (np.asarray(v) for v in j_probe(A(xq), A(xp), A(fp), n=nsafe))
       # (1) node values at nodes, all four routines
       for name, y in (('interp', yi), ('dot', yd), ('linext', yl), ('safe', ys)):
         ctx.expect(bool(np.abs(y[:n] - fp).max() <= 1e-12 * fscale), 'node-values',
@@ -577,10 +581,7 @@ def run(ctx: common.Ctx):
       dist = np.maximum(0.0, np.maximum(xp[0] - xall, xall - xp[-1]))
       atol = 1e-12 * ascale * (1 + dist / dmin) * (1 + span / dmin * 1e-2) + 1e-13
       ins = (xall >= xp[0]) & (xall <= xp[-1])
-      ya = np.asarray(vi.interp(A(xall), A(xp), A(fa)))
-      yda = np.asarray(j_dot(A(xall), A(xp), A(fa)))
-      yla = np.asarray(j_lin(A(xall), A(xp), A(fa)))
-      ysa = np.asarray(j_safe(A(xall), A(xp), A(fa), n=nsafe))
+      ya, yda, yla, ysa = (np.asarray(v) for v in j_probe(A(xall), A(xp), A(fa), n=nsafe))
       exact = a0 + s0 * xall
       ainp = dict(xp=xp.tolist(), a=a0, s=s0, x=xall.tolist())
       ctx.expect(bool((np.abs(ya - exact) <= atol)[ins].all()) and bool((np.abs(yda - exact) <= atol)[ins].all()),
@@ -624,7 +625,7 @@ def run(ctx: common.Ctx):
                dict(x=2.0 ** -106, xp=[0.0, 2.0 ** -105, 1.0], fp=[0.0, 1.0, 2.0], interp=g_i, dot=g_d))
 
   # round trips and coordinates on the real functions
-  nrt = ctx.n(6, 36)
+  nrt = ctx.n(3, 36)
   for ri in range(nrt):
     ns = int(rng.choice([2, 3, 5, 8, 12]))
     b, _ = dinoutil.random_boundaries(rng, ns)
@@ -681,7 +682,7 @@ def run(ctx: common.Ctx):
 
   tick('probes round trips')
   # horizontal regridders: constants, identity on equal grids
-  for hi_ in range(ctx.n(5, 14)):
+  for hi_ in range(ctx.n(3, 14)):
     ts = grid_table[hi_ % len(grid_table)]
     tt = grid_table[(hi_ * 3 + 1) % len(grid_table)]
     gs, gt = mkgrid(ts), mkgrid(tt)
